@@ -467,11 +467,11 @@ Proof.
                                 (all_children cf p (pkey_of w p) (s_version s) chain depth (s_entries s)) None
                  else PRejected
      | None => PRejected end).
-  assert (Hfall : forall leaked,
-     match process_stored cf w p chain depth leaked with
+  assert (Hfall :
+     match process_stored cf w p chain depth with
      | PAccepted _ c1 _ => exists i2 c2 u2, from_store = PAccepted i2 c2 u2 /\ incl c1 c2
      | PRejected => from_store = PRejected end).
-  { intro leaked. unfold process_stored, from_store, pkey_of.
+  { unfold process_stored, from_store, pkey_of.
     destruct (w_stored w (c_subject p)) as [s|]; [|reflexivity].
     destruct (is_ok (validate_stored_manifest cf p (w_pkey w (c_subject p)) (s_version s))); [|reflexivity].
     eexists _, _, _. split; [reflexivity | apply incl_refl]. }
@@ -482,7 +482,7 @@ Proof.
   unfold pkey_of.
   destruct (is_ok (validate_collected_manifest cf p (w_pkey w (c_subject p)) v)) eqn:Hv; cbn [negb andb]; [|apply Hfall].
   destruct (is_newer v (w_stored w (c_subject p))) eqn:Hn; cbn [negb andb]; [|apply Hfall].
-  destruct (walk cf p (w_pkey w (c_subject p)) v chain depth (perm (c_subject p) (listed v)) [] []) as [i c|leaked] eqn:Hw.
+  destruct (walk cf p (w_pkey w (c_subject p)) v chain depth (perm (c_subject p) (listed v)) [] []) as [i c|] eqn:Hw.
   - destruct (walk_done _ _ _ _ _ _ _ _ _ _ _ Hw) as [_ [Hc Hf]]. subst.
     assert (Hcm : complete v = true) by (unfold complete; eapply (forallb_perm_inv perm perm_in); exact Hf).
     rewrite Hcm. eexists _, _, _. split; [reflexivity|]. cbn. intros x Hx.
